@@ -39,6 +39,14 @@ def strategy_(draw):
         spec['cfg'] = dict(spec['cfg'], chunk_size=draw(st.sampled_from([7, 10, 33, 50, 99])),
                            n_processors=draw(st.integers(1, 4)), bootstrap_iteration=2)
     spec['driver'] = draw(st.sampled_from(['run_mapping', 'run_mapping', 'run_mapping', 'direct_manager', 'direct_buffer']))
+    if mode == 2:
+        # many small chunks under a modest budget of file descriptors (the soft RLIMIT_NOFILE is lowered to the
+        # descriptors open at the start of the run + 64): what a run holds open must not grow with the number of chunks
+        n_big = draw(st.integers(90, 140))
+        spec['query'] = dict(spec['query'], cells=[f'c{i}' for i in range(n_big)], zero_rows=[])
+        spec['cfg'] = dict(spec['cfg'], chunk_size=1, n_processors=draw(st.integers(1, 3)), bootstrap_iteration=1,
+                           fd_headroom=64)
+        spec['driver'] = 'run_mapping'
     return spec
 
 
